@@ -126,7 +126,7 @@ theorem closed_reloaded (u : UC) (m : MM) (hm : m.Closed u) (A : List AssocM) (h
     intro c' hc'
     obtain ⟨c, hc, rfl⟩ := List.mem_map.mp hc'
     exact ⟨c, hperm.mem_iff.mp hc, rfl⟩
-  refine ⟨?_, ?_, ?_, ?_, ?_, ?_⟩
+  refine ⟨?_, ?_, ?_, ?_, ?_, ?_, ?_, ?_⟩
   · show ((m.sortedClasses u).map (canonClass u)).map (fun c => u.upper c.kind) |>.Nodup
     rw [List.map_map]
     exact ((hperm.map _).nodup_iff).mpr hm.distinct
@@ -171,6 +171,12 @@ theorem closed_reloaded (u : UC) (m : MM) (hm : m.Closed u) (A : List AssocM) (h
     obtain ⟨c, hc, rfl⟩ := hcls c' hc'
     show attrNamesOk u (upAttrs u c.attrs) = true
     rw [attrNamesOk_upAttrs]; exact hm.attrNames c hc
+  · intro c' hc' a ha
+    obtain ⟨c, hc, rfl⟩ := hcls c' hc'
+    simp only [canonClass, upAttrs, List.mem_map] at ha
+    obtain ⟨a0, ha0, rfl⟩ := ha
+    exact hm.plainAttrs c hc a0 ha0
+  · intro a ha; exact hm.plainKeys a (hA a ha)
 
 theorem wf_reloaded (u : UC) (m : MM) (hw : m.WF u) (hm : m.Closed u) (A : List AssocM) (hA : ∀ a ∈ A, a ∈ m.assocs) :
     (m.reloaded u A).WF u := by
